@@ -6,7 +6,8 @@ CONSTANTS
   Peek = 1
   MaxTimeouts = 1
   Priors = {0, 1, 2}
+  DispatchBound = 2
   Defects = {"ShortCountAfterTimeout"}
 SPECIFICATION Spec
-INVARIANTS InOrderOnce NoEarly Prompt Consumed PrefaceOnce NoError NoByteLost SameForEveryCut
+INVARIANTS InOrderOnce NoEarly Prompt Consumed PrefaceOnce NoError NoByteLost LoopUntilDry SameForEveryCut
 CHECK_DEADLOCK FALSE
